@@ -238,3 +238,33 @@ func (v *V) PtrM(a int) int {
 	}
 	return a + 250
 }
+
+// VF is a variadic function with two fixed parameters (used by C13's chained-condition mistakes
+// and its struct/pointer result mistakes; never part of a history alphabet).
+//
+//go:noinline
+func VF(a int, s string, xs ...int) int {
+	if a > 1<<52 {
+		return a*31 - len(s)
+	}
+	return a + len(s) + len(xs) + 900
+}
+
+// S3 is a 24-byte struct result type.
+type S3 struct{ A, B, C int }
+
+//go:noinline
+func RS3(a int) S3 {
+	if a > 1<<53 {
+		return S3{a, a, a}
+	}
+	return S3{a, 1, 2}
+}
+
+//go:noinline
+func RPS(a int) *S {
+	if a > 1<<54 {
+		return nil
+	}
+	return &S{K: a}
+}
